@@ -114,7 +114,7 @@ fn c12_faults_surface_as_err() {
         for k in (1..=total).step_by(step) {
             let mut src = SchedSource::new(bytes.clone(), 1, usize::MAX, false); src.fail_at = Some(k);
             match catch_unwind(AssertUnwindSafe(|| read_everything(&mut src, &keys))) { Err(_) => cex(format!("C12 reader panicked when the source failed at its call #{} of {} cfg={:?}", k, total, cfg)),
-                Ok(Ok(_)) => cex(format!("C12 read workload reported success although the source failed at its call #{} of {} cfg={:?}", k, total, cfg)), Ok(Err(e)) => if !e.contains("injected") { cex(format!("C12 error does not carry the injected failure: {}", e)); } }
+                Ok(Ok(_)) => cex(format!("C12 read workload reported success although the source failed at its call #{} of {} cfg={:?}", k, total, cfg)), Ok(Err(e)) => if !e.contains("injected") || !e.contains(&format!("Io[{:?}]", INJECTED_KIND)) { cex(format!("C12 error does not carry the injected failure (an io::Error of kind {:?} saying `injected ...`): {}", INJECTED_KIND, e)); } }
             read_faults += 1;
         }
     }
@@ -166,7 +166,8 @@ fn c12_faults_surface_as_err() {
         match r { (Err(()), _) => cex(format!("C12 sorter panicked when {} (route {})", what, route)),
             (Ok(Ok(n)), true) => cex(format!("C12 sorter reported success ({} keys, clean run: {}) although {} (route {})", n, clean_n[route], what, route)),
             (Ok(Ok(n)), false) => if n != clean_n[route] { cex(format!("C12 sorter output has {} keys instead of {} with a fault scheduled but never reached: {} (route {})", n, clean_n[route], what, route)); },
-            (Ok(Err(e)), fired) => { if !fired { cex(format!("C12 error reported although no component failed ({} never fired; route {}): {}", what, route, e)); } if !needle.is_empty() && !e.contains(needle) { cex(format!("C12 failure surfaced as a different error when {} (route {}): {}", what, route, e)); } } }
+            (Ok(Err(e)), fired) => { if needle == "injected" && !e.contains(&format!("Io[{:?}]", INJECTED_KIND)) { cex(format!("C12 the chunk-storage failure came back with another error kind than the component's ({:?}) when {} (route {}): {}", INJECTED_KIND, what, route, e)); }
+                if !fired { cex(format!("C12 error reported although no component failed ({} never fired; route {}): {}", what, route, e)); } if !needle.is_empty() && !e.contains(needle) { cex(format!("C12 failure surfaced as a different error when {} (route {}): {}", what, route, e)); } } }
     };
     for n in 1..=(if tier_thorough() { 90 } else { 45 }) { let route = n % 3;
         judge(format!("the merge function failed at its call #{}", n), route, drive(n, 0, None, false, route), "injected merge failure");
@@ -215,7 +216,7 @@ fn c12_faults_surface_as_err() {
         let (r, _) = run_merge(Some((which, k)));
         match r { Err(_) => cex(format!("C12 merger panicked when source {} failed at its call #{} of {}", which, k, totals[which])),
             Ok(Ok(n)) => cex(format!("C12 merger reported success ({} keys) although source {} failed at its call #{} of {}", n, which, k, totals[which])),
-            Ok(Err(e)) => if !e.contains("injected") { cex(format!("C12 merger error does not carry the failure: {}", e)); } }
+            Ok(Err(e)) => if !e.contains("injected") || !e.contains(&format!("Io[{:?}]", INJECTED_KIND)) { cex(format!("C12 merger error does not carry the failure: {}", e)); } }
         merge_faults += 1; } }
     let _ = std::panic::take_hook();
     stat("sink_fault_points", write_faults); stat("source_fault_points", read_faults); stat("merge_create_chunk_fault_points", merge_faults);
